@@ -9,6 +9,9 @@ import (
 // (wait = number of chunks consumed so far); returning true skips the end-of-script check.
 var zzWaitProbe func(rl *Shell, wait int) bool
 
+// zzQueryLog: for every cursor-position query of the last session, how many type-ahead bytes shared its answer
+var zzQueryLog string
+
 // zzSaveInitial: record the installed buffer in the undo history (sessions that undo).
 var zzSaveInitial bool
 
@@ -30,9 +33,11 @@ func zzRunChunks(rl *Shell, mode string, initial []rune, chunks [][]byte, coDeli
 	script := &zzverif.Script{}
 	zzSessionOn(rl, script)
 	query := 0
+	zzQueryLog = ""
 	zzverif.StdinHook = func(buf []byte) (int, error) {
 		report := []byte("\x1b[1;1R")
 		out := report
+		defer func() { zzQueryLog += "q" + string(rune('0'+query%10)) + ":" + string(rune('0'+len(out)-len(report))) + " " }()
 		if query < len(coDeliver) && coDeliver[query] {
 			if extra := script.Steal(); extra != nil {
 				if before[query] {
@@ -136,16 +141,35 @@ func ZZ_C05_Chunks() {
 
 	one := zzRunChunks(zzShell, mode, initial, [][]byte{all}, nil, nil)
 	split := zzRunChunks(zzShell2, mode, initial, chunks, co, bf)
+	zzverif.Note("queries-split", zzQueryLog)
 	zzverif.Reach("both-ran")
 	zzverif.Note("bytes", string(all))
 	zzverif.Note("one", one.line+"|"+one.buf)
 	zzverif.Note("split", split.line+"|"+split.buf)
 
-	// classes of findings at the pinned commit get their own labels
-	sfx := ""
+	// classes of findings at the pinned commit get their own labels: the class of every
+	// symbolic key (p printable, e ESC, q quoted-insert keys C-q/C-v, x C-x, c other
+	// control, h byte >= 0x80), and whether type-ahead shared a read with a cursor report
+	sfx := "/keys="
+	for _, b := range all[len(pre):] {
+		switch {
+		case b == 0x1b:
+			sfx += "e"
+		case b == 0x11 || b == 0x16:
+			sfx += "q"
+		case b == 0x18:
+			sfx += "x"
+		case b < 0x20 || b == 0x7f:
+			sfx += "c"
+		case b >= 0x80:
+			sfx += "h"
+		default:
+			sfx += "p"
+		}
+	}
 	anyCo := co[0] || co[1] || co[2]
 	if anyCo {
-		sfx = "/typeahead-with-cursor-report"
+		sfx += "/typeahead-with-cursor-report"
 	}
 	zzverif.Assert(one.returned == split.returned, "same-return-or-wait"+sfx)
 	if one.returned != split.returned {
